@@ -287,7 +287,7 @@ def run(spec, ctx):
             from rt.jp_oracle import check_after_incomplete_passes
 
             q0 = r.choice(asts)
-            check_after_incomplete_passes(ctx, q0, Renderer(r, plain=True).top(q0), doc, fctx, "in-place")
+            check_after_incomplete_passes(ctx, q0, Renderer(r, plain=True).top(q0), doc, fctx, "in-place", pool=list(gen.MEM_LEAVES) + [[], {}, ["a"], {"a": 2}])  # (no boolean/number look-alikes: extension operators may compare them)
         if not failed and not use_ctx and r.random() < 0.5:
             # lazy entry points of ONE compiled object left half-consumed while another evaluation runs:
             # finditer/query must still list what findall lists
@@ -354,7 +354,7 @@ def replay(case, ctx, tag="replay"):
         from rt.jp_oracle import check_after_incomplete_passes
 
         for _ in range(10):
-            check_after_incomplete_passes(ctx, case["ast"], case["text"], case["doc"], case.get("extra"), case.get("class", "replay"))
+            check_after_incomplete_passes(ctx, case["ast"], case["text"], case["doc"], case.get("extra"), case.get("class", "replay"), pool=list(gen.MEM_LEAVES) + [[], {}, ["a"], {"a": 2}])
         return
     import jsonpath
 
